@@ -12,6 +12,9 @@ R4  "wait returns non-zero only once its deadline has passed": nsync_counter_wai
     agrees (= C12.R3, judged here for the counter's contract).
 R5  "a wait that starts after zero does not block": counter_enqueue refuses the record when the value is already zero, so nsync_wait_n must poll
     the ready times again after registering and before its first sleep (= C11.R3).
+R6  "returns non-zero only once its deadline has passed": a semaphore P on the path of a counter wait is either in a loop that re-reads the wake
+    condition after it returns, or it returned non-zero (a stale post left on the thread's reused semaphore must not be taken for the
+    deadline) - the sleeper-loop rule of C02.R5 applied to counter.c and wait.c.
 Linearizability of the returned values over histories is not decided."""
 from .. import util, ir as IR, objmodel, wakeshape
 from ..bounds import _guards, _norm_cmp
@@ -131,6 +134,9 @@ def run(ctx, rep):
     from .C11 import check_waitn_sleep
     rep.rule('C10.R5', 'a wait on the counter through nsync_wait_n sleeps only on ready times polled after its registration (a counter that reached zero meanwhile refuses the record)')
     check_waitn_sleep(mod, rep, 'C10.R5')
+    rep.rule('C10.R6', 'every semaphore P reachable from a counter wait sits in a loop that re-reads the wake condition (a stale post is not a timeout)')
+    from .C02 import SEM_P
+    wakeshape.check_sleeper_loops(mod, rep, 'C10.R6', SEM_P, only_files=('/counter.c', '/wait.c'))
     rep.floor('C10.R1', 3)
     rep.floor('C10.R2', 8)
     rep.floor('C10.R3', 1)
